@@ -116,10 +116,12 @@ pub fn any_zone<S: Src>(s: &mut S, max_offset_s: i64) -> OneTransition {
     OneTransition { t, before, after }
 }
 
-/// a local date-time on 2000-06-13 .. 2000-06-17 at nanosecond resolution
+/// a local date-time on the harness day 2000-06-15 at nanosecond resolution (the transition happens at some second
+/// of that same UTC day, so with offsets of several hours the local time can fall before, inside or after the
+/// gap/overlap, and the +-3 h probes and shifts cross midnight in both directions)
 pub fn any_local<S: Src>(s: &mut S) -> IsoDateTime {
     let mut d = base_date();
-    d.day = s.u8_in(13, 17);
+    d.day = 15;
     let t = crate::common::any_time(s);
     h::iso_date_time_new_unchecked(d, t)
 }
@@ -130,6 +132,15 @@ pub fn wall_to_instant<S: Src>(s: &mut S, max_offset_s: i64, whole_minutes: bool
     if whole_minutes {
         s.assume(zone.before % 60 == 0 && zone.after % 60 == 0);
     }
+    wall_to_instant_in(s, zone)
+}
+
+/// the same check for one concrete zone (transition `t_s` seconds into 2000-06-15 UTC): every local time of that day
+pub fn wall_to_instant_fixed<S: Src>(s: &mut S, t_s: i64, before: i64, after: i64) {
+    wall_to_instant_in(s, OneTransition { t: BASE_DAY * 86_400 + t_s, before, after })
+}
+
+fn wall_to_instant_in<S: Src>(s: &mut S, zone: OneTransition) {
     let local = any_local(s);
     let dis = s.u8_in(0, 3);
     let base = base_date();
@@ -177,7 +188,7 @@ pub fn wall_to_instant<S: Src>(s: &mut S, max_offset_s: i64, whole_minutes: bool
 /// GetISODateTimeFor: the wall-clock reading of an instant is the instant shifted by the offset in force
 pub fn instant_to_wall<S: Src>(s: &mut S, max_offset_s: i64) {
     let zone = any_zone(s, max_offset_s);
-    let e = (BASE_DAY as i128) * DAY_NS + s.i128_in(-DAY_NS, 2 * DAY_NS - 1);
+    let e = (BASE_DAY as i128) * DAY_NS + s.i128_in(0, DAY_NS - 1);
     let off = zone.offset_at(e);
     let base = base_date();
     let provider = SynProvider { zone, base_day: BASE_DAY, base };
@@ -204,8 +215,104 @@ pub fn instant_to_wall<S: Src>(s: &mut S, max_offset_s: i64) {
     core::mem::forget(zdt);
 }
 
+/// InterpretISODateTimeOffset through ZonedDateTime::from_partial_with_provider: the explicit offset is used,
+/// ignored, preferred or required to match (to the minute) according to the offset option
+pub fn offset_option<S: Src>(s: &mut S, max_offset_s: i64) {
+    use core::str::FromStr;
+    use temporal_rs::options::OffsetDisambiguation;
+    use temporal_rs::partial::{PartialDate, PartialTime, PartialZonedDateTime};
+    let zone = any_zone(s, max_offset_s);
+    let day = 15u8;
+    let t = crate::common::any_time(s);
+    let dis = s.u8_in(0, 3);
+    let opt = s.u8_in(0, 3); // use, prefer, ignore, reject
+    // the explicit offset: +-HH:MM
+    let hh = s.u8_in(0, 3);
+    let mm = s.u8_in(0, 59);
+    let neg = s.bool();
+    let text = [if neg { b'-' } else { b'+' }, b'0', b'0' + hh, b':', b'0' + mm / 10, b'0' + mm % 10];
+    let Ok(off) = temporal_rs::UtcOffset::from_str(unsafe { core::str::from_utf8_unchecked(&text) }) else { return };
+    let off_ns = (if neg { -1i128 } else { 1 }) * ((hh as i128) * 3600 + (mm as i128) * 60) * NS;
+    let base = base_date();
+    let mut d = base;
+    d.day = day;
+    let local = h::iso_date_time_new_unchecked(d, t);
+    let l = local_ns(&local, BASE_DAY, &base);
+    let (a, b) = zone.candidates(l);
+    let before_ns = (zone.before as i128) * NS;
+    let after_ns = (zone.after as i128) * NS;
+    let by_disambiguation: Option<i128> = match (a, b) {
+        (Some(x), None) | (None, Some(x)) => Some(x),
+        (Some(x), Some(y)) => match dis { 0 | 1 => Some(x.min(y)), 2 => Some(x.max(y)), _ => None },
+        (None, None) => match dis { 0 | 2 => Some(l - before_ns), 1 => Some(l - after_ns), _ => None },
+    };
+    // a candidate matches if its offset equals the given one exactly or after rounding to the minute (half away from zero)
+    let matches = |c: i128| -> bool {
+        let co = l - c;
+        let m = 60 * NS;
+        let rounded = if co >= 0 { (co + m / 2) / m * m } else { -((-co + m / 2) / m * m) };
+        co == off_ns || rounded == off_ns
+    };
+    let matched: Option<i128> = match (a, b) {
+        (Some(x), _) if matches(x) => Some(x),
+        (_, Some(y)) if matches(y) => Some(y),
+        _ => None,
+    };
+    let want: Option<i128> = match opt {
+        0 => Some(l - off_ns),
+        2 => by_disambiguation,
+        1 => matched.or(by_disambiguation),
+        _ => matched,
+    };
+    vcover!(s, "C13.offset.minute_rounded_match", matched.is_some() && a.map_or(true, |x| l - x != off_ns) && b.map_or(true, |y| l - y != off_ns));
+    vcover!(s, "C13.offset.no_match", matched.is_none());
+    let provider = SynProvider { zone, base_day: BASE_DAY, base };
+    let mut pd = PartialDate::default();
+    pd.year = Some(2000);
+    pd.month = Some(6);
+    pd.day = Some(day);
+    let pt = PartialTime {
+        hour: Some(t.hour), minute: Some(t.minute), second: Some(t.second),
+        millisecond: Some(t.millisecond), microsecond: Some(t.microsecond), nanosecond: Some(t.nanosecond),
+    };
+    let partial = PartialZonedDateTime::new()
+        .with_date(pd)
+        .with_time(pt)
+        .with_offset(Some(off))
+        .with_timezone(Some(TimeZone::IanaIdentifier(String::from("Syn/Zone"))));
+    let oo = match opt {
+        0 => OffsetDisambiguation::Use,
+        1 => OffsetDisambiguation::Prefer,
+        2 => OffsetDisambiguation::Ignore,
+        _ => OffsetDisambiguation::Reject,
+    };
+    let got = temporal_rs::ZonedDateTime::from_partial_with_provider(partial, None, Some(disamb(dis)), Some(oo), &provider);
+    match got {
+        Ok(z) => {
+            let g = z.epoch_nanoseconds().as_i128();
+            match want {
+                Some(w) => {
+                    if opt == 0 {
+                        vassert!(s, "C13.offset.use_takes_the_given_offset", g == w);
+                    } else {
+                        vassert!(s, "C13.offset.instant_per_offset_option", g == w);
+                    }
+                }
+                None => vassert!(s, "C13.offset.reject_errors_without_match", false),
+            }
+            core::mem::forget(z);
+        }
+        Err(_) => vassert!(s, "C13.offset.resolvable_input_resolves", want.is_none()),
+    }
+}
+
 crate::harnesses! { REGISTRY;
-    c13_wall_to_instant_3h [unwind 3] = |s| wall_to_instant(s, 3 * 3600, true);
-    c13_wall_to_instant_26h [unwind 3] = |s| wall_to_instant(s, 26 * 3600, false);
-    c13_instant_to_wall [unwind 3] = |s| instant_to_wall(s, 26 * 3600);
+    c13_wall_gap_1h [unwind 12] = |s| wall_to_instant_fixed(s, 7_200, 3_600, 7_200);
+    c13_wall_gap_4h [unwind 12] = |s| wall_to_instant_fixed(s, 7_200, -3_600, 10_800);
+    c13_wall_overlap_1h [unwind 12] = |s| wall_to_instant_fixed(s, 7_200, 7_200, 3_600);
+    c13_wall_gap_at_midnight [unwind 12] = |s| wall_to_instant_fixed(s, 10_800, -10_800, -7_200);
+    c13_offset_option_2h [unwind 12] = |s| offset_option(s, 2 * 3600);
+    c13_wall_to_instant_3h [unwind 12] = |s| wall_to_instant(s, 3 * 3600, true);
+    c13_wall_to_instant_26h [unwind 12] = |s| wall_to_instant(s, 26 * 3600, false);
+    c13_instant_to_wall [unwind 12] = |s| instant_to_wall(s, 26 * 3600);
 }
